@@ -193,21 +193,25 @@ class ChunkedReceiver:
                     self.trailer = trailer[:pos]
 
                     # trailer-section = *( field-line CRLF ); a line that
-                    # starts with SP / HTAB continues the previous one
-                    previous = False
+                    # starts with SP / HTAB continues the previous one and
+                    # is checked together with it, as in the header section
+                    lines = []
 
                     for line in self.trailer[:-4].split(b"\r\n"):
-                        folded = previous and line[:1] in (b" ", b"\t")
+                        if lines and line[:1] in (b" ", b"\t"):
+                            lines[-1] += line
+                        else:
+                            lines.append(line)
 
+                    for line in lines:
                         if (
                             b"\r" in line
                             or b"\n" in line
-                            or not (folded or HEADER_FIELD_RE.match(line))
+                            or not HEADER_FIELD_RE.match(line)
                         ):
                             self.error = BadRequest("Invalid trailer")
 
                             break
-                        previous = True
 
                     return orig_size - (len(trailer) - pos)
 
